@@ -63,6 +63,7 @@ def Ff (fnOk : Bool) (self : String) : Expr → Bool
   | .let_ seq bs body =>
     (seq || decide ((bs.map (·.1)).Nodup)) && !body.isEmpty && FfBinds fnOk self bs && FfList fnOk self body
   | .arr es => FfList fnOk self es
+  | .for_ _ init test incr body => Ff fnOk self init && Ff fnOk self test && Ff fnOk self incr && FfList fnOk self body
   | .call (.sym h) args => (h != self) && (h != "") && okHead h && FaList args
   | .fn ps rest body =>
     fnOk && rest.isNone && decide ps.Nodup && ps.all okParam && !body.isEmpty && FfList true "" body
@@ -106,14 +107,17 @@ structure KeepFns (g₁ g₂ : GS) : Prop where
   len : g₁.fns.length ≤ g₂.fns.length
   fns : ∀ t, t < g₁.fns.length → g₂.fns.getD t {} = g₁.fns.getD t {}
   live : g₂.live = g₁.live
-  loops : g₂.loops = g₁.loops
+  loopsLen : g₁.loops.length ≤ g₂.loops.length
+  loopsGet : ∀ id, id < g₁.loops.length → g₂.loops.getD id {} = g₁.loops.getD id {}
   loopstack : g₂.loopstack = g₁.loopstack
 
-theorem KeepFns.refl (g : GS) : KeepFns g g := ⟨Nat.le_refl _, fun _ _ => rfl, rfl, rfl, rfl⟩
+theorem KeepFns.refl (g : GS) : KeepFns g g := ⟨Nat.le_refl _, fun _ _ => rfl, rfl, Nat.le_refl _, fun _ _ => rfl, rfl⟩
 
 theorem KeepFns.trans {a b c : GS} (h₁ : KeepFns a b) (h₂ : KeepFns b c) : KeepFns a c :=
   ⟨Nat.le_trans h₁.len h₂.len, fun t ht => (h₂.fns t (Nat.lt_of_lt_of_le ht h₁.len)).trans (h₁.fns t ht),
-   h₂.live.trans h₁.live, h₂.loops.trans h₁.loops, h₂.loopstack.trans h₁.loopstack⟩
+   h₂.live.trans h₁.live, Nat.le_trans h₁.loopsLen h₂.loopsLen,
+   fun id hid => (h₂.loopsGet id (Nat.lt_of_lt_of_le hid h₁.loopsLen)).trans (h₁.loopsGet id hid),
+   h₂.loopstack.trans h₁.loopstack⟩
 
 /-- the code was compiled when its text was loaded (generator state `gs` before, `gs'` after, the
 live stack then being the global scope alone), and the templates made on the way are in the
